@@ -2672,3 +2672,107 @@ func isParamOrItsCell(v ssa.Value) bool {
 	}
 	return stores == 1
 }
+
+// c18PerVisitState (PER-VISIT-STATE): the field-option modifiers walk every descriptor of a file with one callback.
+// What the callback decides for a field (the override selected for it) must not outlive the visit: a variable that
+// the callback writes but that is declared outside it carries the value chosen for one field over to every later
+// field no rule matches - "changes only governed options" breaks in declaration order. On SSA: the callbacks handed to
+// the descriptor walk in bufimagemodify store into none of their captured variables.
+func c18PerVisitState(c *Ctx, pk *packages.Package) {
+	const rule = "PER-VISIT-STATE"
+	c.Rule(rule, "walk callbacks of the modifiers keep no state between visited descriptors", 1)
+	p := c.P
+	n := 0
+	for _, sf := range p.SSAFuncsOf([]*packages.Package{pk}) {
+		for _, call := range callsIn(sf) {
+			fn := staticCalleeObj(call.Call)
+			if fn == nil || fn.Pkg() == nil || !strings.HasSuffix(fn.Pkg().Path(), "/protodescriptor/walk") && !strings.HasSuffix(fn.Pkg().Path(), "/walk") {
+				continue
+			}
+			for _, a := range call.Call.Args {
+				mc, ok := a.(*ssa.MakeClosure)
+				if !ok {
+					continue
+				}
+				cb := mc.Fn.(*ssa.Function)
+				n++
+				var written []string
+				for _, f := range allSSAFuncs(cb) {
+					for _, b := range f.Blocks {
+						for _, ins := range b.Instrs {
+							if st, ok := ins.(*ssa.Store); ok {
+								if fv, ok := st.Addr.(*ssa.FreeVar); ok && f == cb {
+									written = append(written, fv.Name())
+								}
+							}
+						}
+					}
+				}
+				c.Ob(rule, fmt.Sprintf("%s/callback#%d", ssaFuncName(sf), n), call.Pos(), len(written) == 0, true, "the walk callback writes no variable of the enclosing function: %v %v", len(written) == 0, written)
+			}
+		}
+	}
+	if n == 0 {
+		c.Fail(rule, "anchor", token.NoPos, "no descriptor-walk callback found in bufimagemodify")
+	}
+}
+
+// c18AccumulatorCarry (ACCUMULATOR-CARRY): "overrides beat defaults; the last matching override wins" for options made
+// of parts (java_package = prefix + package + suffix) means: a later *_prefix rule replaces the prefix and keeps the
+// suffix chosen by an earlier *_suffix rule, and vice versa. In the loop over the override rules, when the accumulated
+// options are rebuilt as a struct literal, every part that is carried over is read from the accumulator itself, not
+// from the defaults or any other value of that type (which would silently drop the earlier rule).
+func c18AccumulatorCarry(c *Ctx, pk *packages.Package) {
+	const rule = "ACCUMULATOR-CARRY"
+	c.Rule(rule, "parts of a composed override that are not being replaced are carried over from the accumulated value", 2)
+	p := c.P
+	info := pk.TypesInfo
+	n := 0
+	for _, fr := range p.FuncsOf(pk) {
+		if fr.Decl.Body == nil {
+			continue
+		}
+		ast.Inspect(fr.Decl.Body, func(m ast.Node) bool {
+			rs, ok := m.(*ast.RangeStmt)
+			if !ok {
+				return true
+			}
+			ast.Inspect(rs.Body, func(x ast.Node) bool {
+				as, ok := x.(*ast.AssignStmt)
+				if !ok || len(as.Lhs) != 1 || len(as.Rhs) != 1 || as.Tok != token.ASSIGN {
+					return true
+				}
+				acc := identObj(info, as.Lhs[0])
+				lit, ok := ast.Unparen(as.Rhs[0]).(*ast.CompositeLit)
+				if acc == nil || !ok {
+					return true
+				}
+				if _, isStruct := acc.Type().Underlying().(*types.Struct); !isStruct || !types.Identical(info.TypeOf(lit), acc.Type()) {
+					return true
+				}
+				for _, el := range lit.Elts {
+					kv, ok := el.(*ast.KeyValueExpr)
+					if !ok {
+						continue
+					}
+					sel, ok := ast.Unparen(kv.Value).(*ast.SelectorExpr)
+					if !ok {
+						continue
+					}
+					src := identObj(info, sel.X)
+					if src == nil || !types.Identical(src.Type(), acc.Type()) {
+						continue
+					}
+					n++
+					ok2 := src == acc && sel.Sel.Name == kv.Key.(*ast.Ident).Name
+					c.Ob(rule, fmt.Sprintf("%s/%s.%s#%d", declName(fr.Decl), acc.Name(), kv.Key.(*ast.Ident).Name, n), kv.Pos(), ok2, true, "part %s is carried over from %s.%s (want the accumulator %s and the same part)", kv.Key.(*ast.Ident).Name, src.Name(), sel.Sel.Name, acc.Name())
+				}
+				return true
+			})
+			return true
+		})
+	}
+	if n == 0 {
+		c.Fail(rule, "anchor", token.NoPos, "no accumulated override literal found in bufimagemodify")
+	}
+}
